@@ -96,6 +96,9 @@ const TARGETS: &[Target] = &[
              func: "read_and_cut_lines", calls: &[("is_forward_only", "gen_ubl_is_forward_only"), ("cut_lines_forward_only", "model_lines_forward"), ("cut_lines", "model_lines_buffered")],
              deps: &["ubl_is_forward_only"],
              imports: "Model.Scan Model.Regex Model.Opt Model.CutStr Model.CutLines Tie.RsList Tie.RsLines", ret_muts: false, fuel: "" },
+    Target { name: "compress_regex", file: "src/cut_str.rs", impl_trait: None, impl_self: None,
+             func: "compress_delimiter_with_regex", calls: &[("replace_all", "rx_replace_all")], deps: &[],
+             imports: "Model.Scan Model.Regex Model.Opt Model.CutStr Tie.RsRegex", ret_muts: false, fuel: "" },
     Target { name: "maybe_replace", file: "src/cut_str.rs", impl_trait: None, impl_self: None,
              func: "maybe_replace_delimiter", calls: &[("replace_all", "rx_replace_all")], deps: &[],
              imports: "Model.Scan Model.Regex Model.Opt Model.CutStr Tie.RsRegex", ret_muts: false, fuel: "" },
